@@ -26,8 +26,16 @@ Definition frame_id (piece : pv) : option Z :=
   | PStr f => match decode_str (fun _ => Ok PNone) f with Ok r => pid (rp r) | Err _ => None end
   | _ => None
   end.
+(* callbacks[ns] as dumped: next value of the id generator and the outstanding ids (a dict has one entry per key) *)
+Fixpoint dump_slot_in (l : list (str * N * list N)) (ns : str) : option (N * list N) :=
+  match l with
+  | [] => None
+  | (k, nxt, ids) :: r => if str_eqb k ns then Some (nxt, ids) else dump_slot_in r ns
+  end.
+Definition dump_slot (d : cdump) (ns : str) : option (N * list N) := dump_slot_in (d_cbs d) ns.
 Definition dump_ids (d : cdump) (ns : str) : list N :=
-  flat_map (fun x => if str_eqb (fst (fst x)) ns then snd x else []) (d_cbs d).
+  match dump_slot d ns with Some (_, ids) => ids | None => [] end.
+Definition emit_list (data : pv) : list pv := match data with PTuple l => l | PNone => [] | x => [x] end.
 
 Definition B_EVENT := 4%nat.
 Definition B_UNIQUE := 8%nat.
@@ -87,18 +95,24 @@ Definition c09_step (c : cfg) (s : cli) (dprev : cdump) (o : op) (obs : list eff
   | CEmit _ _ pn (Some _) | CSend _ pn (Some _) | CCall _ _ pn _ _ =>
       let ns := ns_or_default pn in
       if negb (ahas str_eqb (namespaces s) ns) then O else
+      (* the id used is the value the generator was at: positive, not outstanding before, and it is the id
+         the EVENT carries (the frames are exactly the encoding of the EVENT with that id) *)
+      let evname := match o with CEmit ev _ _ _ | CCall ev _ _ _ _ => ev | _ => ev_message end in
+      let data := match o with CEmit _ x _ _ | CSend x _ _ | CCall _ x _ _ _ => x | _ => PNone end in
       let uniq :=
-        if eiost_eqb (eio_state s) EConnected then
-          match sent_of obs with
-          | first :: _ =>
-              match frame_id first with
-              | Some i => (0 <? i)%Z &&
-                          match outstanding (callbacks s) ns (Some i) with None => true | Some _ => false end
-              | None => false
-              end
-          | [] => false
-          end
-        else true in
+        match dump_slot d ns with
+        | Some (nxt, _) =>
+            let i := nxt - 1 in
+            (1 <=? i) &&
+            match outstanding (callbacks s) ns (Some (Z.of_N i)) with None => true | Some _ => false end &&
+            (if eiost_eqb (eio_state s) EConnected then
+               match frames_of EVENT (PList (PStr evname :: emit_list data)) ns (Some (Z.of_N i)) with
+               | Ok fr => list_eqb pv_eqb (firstn (List.length fr) (sent_of obs)) fr
+               | Err _ => true
+               end
+             else true)
+        | None => false
+        end in
       let callres :=
         match o with
         | CCall _ _ _ reply _ =>
